@@ -668,6 +668,9 @@ def loop_role(t, L=None):
         return None
     it = strip_views(t.args[0]) if t.args and isinstance(t.args[0], T) else None
     while it is not None:
+        if is_call_to(it, 'builtin.reversed') and len(call_parts(it)[1]) == 1 and not call_parts(it)[2]:
+            it = strip_views(call_parts(it)[1][0])          # the same indices / elements, visited from the other end
+            continue
         if is_call_to(it, 'builtin.range') and not path:
             return ('index', loop)
         if is_call_to(it, 'numpy.ndindex') and not call_parts(it)[2]:
@@ -956,6 +959,19 @@ def axis_reordering(t):
             return pos[0], ('reverse',)
         if isinstance(ax, tuple) and all(isinstance(x, int) for x in ax):
             return pos[0], ('perm', ax)
+        # an axis order that is computed (sorted(range(x.ndim), reverse=True); order = list(range(x.ndim)); order.insert(0, order.pop())): folded for the ranks 2..5 and
+        # named by what it is for every one of them
+        a = call_arg(t, 1, 'axes') if not (n == 'method:transpose' and len(pos) > 2) else None
+        if a is None and n == 'method:transpose' and len(pos) == 2 and pos[1].op == 'star':
+            a = pos[1].args[0]
+        if a is not None:
+            from .inteval import transpose_by_rank, classify_permutations
+            perms = transpose_by_rank(a, pos[0])
+            spec = classify_permutations(perms) if perms else None
+            if spec is not None and spec != ('identity',):
+                if spec[0] == 'move' and abs(spec[1] - spec[2]) == 1 and (spec[1] < 0) == (spec[2] < 0):
+                    spec = ('swap', frozenset((spec[1], spec[2])))
+                return pos[0], spec
         return None
     if c == 'numpy.swapaxes':
         a, b = const_val(call_arg(t, 1, 'axis1')), const_val(call_arg(t, 2, 'axis2'))
@@ -1115,6 +1131,8 @@ def index_extent(lp):
     it = strip_views(lp.iter) if getattr(lp, 'iter', None) is not None else None
     if it is None:
         return None
+    while is_call_to(it, 'builtin.reversed') and len(call_parts(it)[1]) == 1 and not call_parts(it)[2]:
+        it = strip_views(call_parts(it)[1][0])          # as many iterations, from the other end
     if is_call_to(it, 'builtin.range') and len(call_parts(it)[1]) == 1:
         return strip_views(call_parts(it)[1][0])
     if is_call_to(it, 'builtin.enumerate') and len(call_parts(it)[1]) == 1:
@@ -1310,3 +1328,74 @@ def inserted_singleton_axes(t, depth=0):
         if inner is not None and a < 0 and b < 0:
             return {b if p == a else a if p == b else p for p in inner}
     return None
+
+
+def named_front_axes(t, depth=0):
+    """how many LEADING axes of the array term t have a meaning fixed by the way t was built, whatever the rank of the function's inputs: the axes written out in
+    front of a reshape target ((-1, *trailing) names axis 0), the explicit leading letters of an einsum result ('n...d->n...'), an axis moved to the front
+    (np.moveaxis(x, k, 0)), a unit axis inserted in front (x[None]); kept by slices, copies and unary elementwise operations, by building a list of such
+    blocks.  A non-negative literal axis below this count addresses the same axis for every input rank."""
+    if not isinstance(t, T) or depth > 14:
+        return 0
+    if t.op in ('refine',):
+        return named_front_axes(t.args[0], depth + 1)
+    if t.op == 'gamma':
+        return min(named_front_axes(t.args[1], depth + 1), named_front_axes(t.args[2], depth + 1))
+    if t.op in ('list', 'tuple'):
+        return min([named_front_axes(x, depth + 1) for x in t.args[0]] or [0])
+    if t.op == 'comp':
+        elts = t.args[1] if len(t.args) > 1 and isinstance(t.args[1], tuple) else ()
+        return named_front_axes(elts[0], depth + 1) if len(elts) == 1 and isinstance(elts[0], T) else 0
+    if t.op == 'sub':
+        idx = t.args[1]
+        items = list(idx.args[0]) if idx.op == 'tuple' else [idx]
+        n = named_front_axes(t.args[0], depth + 1)
+        out = 0
+        for it in items:
+            if it.op == 'const' and it.args[0] is None:
+                out += 1
+            elif it.op == 'slice':
+                if n <= 0:
+                    return out
+                n -= 1
+                out += 1
+            elif it.op == 'const' and it.args[0] is Ellipsis:
+                return out
+            else:
+                if n <= 0:
+                    return out
+                n -= 1          # an integer / loop index consumes the axis
+        return out + max(n, 0)
+    if t.op == 'call':
+        name, pos, kw = call_parts(t)
+        if name in ('numpy.reshape', 'method:reshape'):
+            shp = pos[1:] if name == 'numpy.reshape' else pos
+            if name == 'numpy.reshape' and not shp:
+                shp = [kw[k] for k in ('newshape', 'shape') if k in kw]
+            if len(shp) == 1 and shp[0].op in ('tuple', 'list'):
+                shp = list(shp[0].args[0])
+            k = 0
+            for it in shp:
+                if it.op == 'star':
+                    break
+                k += 1
+            return k if all(x.op != 'attr' for x in shp[:k]) else 0          # (x.shape would be one entry per axis of x)
+        if name == 'numpy.einsum' and pos and isinstance(const_val(pos[0]), str) and '->' in const_val(pos[0]):
+            rhs = const_val(pos[0]).replace(' ', '').split('->')[1]
+            return len(rhs.split('...')[0])
+        if name == 'numpy.moveaxis' and len(pos) == 3 and const_val(pos[2]) == 0 and not isinstance(const_val(pos[2]), bool):
+            return 1
+        if name in ('numpy.swapaxes', 'method:swapaxes') and len(pos) == 3 and any(const_val(p_) == 0 and not isinstance(const_val(p_), bool) for p_ in pos[1:]) \
+                and any(strip_views(p_).op == 'param' for p_ in pos[1:]):
+            return 1          # np.swapaxes(x, source_axis, 0): the axis the caller named is now axis 0
+        if name in ('numpy.asarray', 'numpy.array', 'numpy.copy', 'numpy.ascontiguousarray', 'numpy.conj', 'numpy.conjugate', 'numpy.abs', 'numpy.exp', 'numpy.log', 'numpy.sqrt',
+                    'numpy.square', 'numpy.real', 'numpy.imag', 'numpy.stack', 'numpy.concatenate') and pos:
+            if name in ('numpy.stack',):
+                return 1 if const_val(call_arg(t, 1, 'axis')) in (0, NOVAL) or call_arg(t, 1, 'axis') is None else 0
+            return named_front_axes(pos[0], depth + 1)
+        if name in ('method:copy', 'method:conj', 'method:conjugate', 'method:astype'):
+            return named_front_axes(t.args[0].args[0], depth + 1)
+        fq = name
+        if fq and fq.endswith('_compute_precision_cholesky') and pos:
+            return named_front_axes(pos[0], depth + 1)          # maps a stack of matrices to the stack of their factors
+    return 0
